@@ -721,7 +721,20 @@ def sbytes_method(it, o, name):
 
     def encode(encoding='utf-8', errors='strict'):
         # only for SStr (ASCII text by construction)
-        return V.mk_bytes(items)
+        enc = encoding.lower().replace('_', '-')
+        if enc in ('utf-16-be', 'utf-16be'):
+            out = []
+            for x in items:
+                out += [0, x]
+            return V.mk_bytes(out)
+        if enc in ('utf-16-le', 'utf-16le'):
+            out = []
+            for x in items:
+                out += [x, 0]
+            return V.mk_bytes(out)
+        if enc in ('utf-8', 'utf8', 'ascii', 'latin-1', 'latin1', 'iso-8859-1'):
+            return V.mk_bytes(items)
+        raise Unsupported('encode(%s) of symbolic text' % encoding)
 
     def append(x):
         o.items.append(x)
@@ -782,7 +795,12 @@ def sbytes_method(it, o, name):
             first = False
         return V.mk_bytes(out)
 
-    table = dict(startswith=startswith, endswith=endswith, ljust=ljust, rjust=rjust, rstrip=rstrip, lstrip=lstrip, strip=strip,
+    def isdigit():
+        if not items:
+            return False
+        return sx.And(*[sx.And(c >= 48, c <= 57) for c in items])
+
+    table = dict(isdigit=isdigit, startswith=startswith, endswith=endswith, ljust=ljust, rjust=rjust, rstrip=rstrip, lstrip=lstrip, strip=strip,
                  decode=decode, append=append, extend=extend, count=count, hex=hex_, find=find, index=index, split=split,
                  upper=upper, join=join)
     if isinstance(o, SStr):
@@ -880,7 +898,7 @@ def dict_method(it, o, name):
 
 
 def native_attr(it, o, name, node, frame):
-    if isinstance(o, SBytes) or (isinstance(o, (bytes, bytearray)) and name in ('startswith', 'endswith', 'join', 'ljust', 'rjust', 'rstrip', 'lstrip', 'strip', 'find', 'index', 'count', 'split')):
+    if isinstance(o, SBytes) or (isinstance(o, (bytes, bytearray)) and name in ('startswith', 'endswith', 'join', 'ljust', 'rjust', 'rstrip', 'lstrip', 'strip', 'find', 'index', 'count', 'split', 'isdigit')):
         fn = sbytes_method(it, o, name)
         native = getattr(o, name, None) if isinstance(o, (bytes, bytearray)) else None
 
@@ -995,7 +1013,6 @@ def b_int(it, x=0, base=None):
             return z3.If(x, 1, 0)
         return x
     if isinstance(x, (SBytes, SStr)):
-        # decimal parse of symbolic ASCII text/bytes: digits only (no sign/space/underscore modelling)
         items = x.items
         if base not in (None, 10):
             raise Unsupported('int() of symbolic text with base')
@@ -1007,6 +1024,35 @@ def b_int(it, x=0, base=None):
             for c in items:
                 tot = tot * 10 + (c - 48)
             return tot
+        if len(items) <= 4:
+            # exact CPython semantics for short strings: classify every character (digit, sign, underscore, ASCII whitespace,
+            # other) by forking, ask CPython about a representative of that class string, and build the value from the digits
+            rep = []
+            for c in items:
+                if not is_sym(c):
+                    rep.append(chr(c) if c < 128 else 'x')
+                elif it.branch(sx.And(c >= 48, c <= 57)):
+                    rep.append('1')
+                elif it.branch(c == 43):
+                    rep.append('+')
+                elif it.branch(c == 45):
+                    rep.append('-')
+                elif it.branch(c == 95):
+                    rep.append('_')
+                elif it.branch(sx.Or(c == 32, sx.And(c >= 9, c <= 13))):
+                    rep.append(' ')
+                else:
+                    rep.append('x')
+            rs = ''.join(rep)
+            try:
+                int(rs.encode('ascii') if not isinstance(x, SStr) else rs)
+            except ValueError:
+                it.raise_exc('ValueError', 'invalid literal for int()')
+            tot = 0
+            for c, r in zip(items, rep):
+                if r.isdigit():
+                    tot = tot * 10 + (c - 48)
+            return -tot if '-' in rs else tot
         # not all digits: CPython also accepts sign, whitespace, underscores -> left uninterpreted
         if it.branch(it.ctx.fresh_bool('int_parse_fails')):
             it.raise_exc('ValueError', 'invalid literal for int()')
